@@ -8,13 +8,18 @@
     obtained earlier (a callback raises the boundary to its block's absolute
     index + 1 without holding the lock).  Every theorem quantifies over every
     configuration and every event list [es] (Put-thread steps, Put() entered /
-    left, readers handed out, callbacks) from the initial state; proofs by
+    left, readers handed out, callbacks) from the constructor's state
+    [init_of c] for ANY initialBlocksCount [q_init c] (restored blocks are
+    promoted to "new" / "current" as the growth policy allows, the "old" ones
+    above desiredOldBlocksCount are quarantined by the constructor); proofs by
     induction over [es] in Store/QuarantineProofs.v, Run/R08QProofs.v.
+    [wf0 c]: 0 <= desiredOldBlocksCount (with a negative count the constructor
+    asks for the release of more blocks than exist).
 
     C08: "from that moment no object stored in the same or an older block is
     returned or reported present, while objects in newer blocks are unaffected". *)
 From Coq Require Import List ZArith Bool Lia.
-From BBS Require Import Common.Sx Store.Quarantine Store.QuarantineProofs Store.CasMax Run.R08Q Run.R08QProofs.
+From BBS Require Import Common.Sx Store.Quarantine Store.QuarantineProofs Store.CasMax Run.R08Q Run.R08QProofs Store.QFuel.
 Import ListNotations.
 Open Scope Z_scope.
 
@@ -24,7 +29,8 @@ Open Scope Z_scope.
     honours every detection:  released <= toBeReleased <= max(released, highest
     boundary a detection asked for) and that highest boundary <= toBeReleased. *)
 Theorem boundary_justified : forall c es,
-  let st := run_evs c init es in
+  wf0 c ->
+  let st := run_evs c (init_of c) es in
   rel st <= tbr st + (if is_raise (pcs st) then 1 else 0)
   /\ tbr st <= Z.max (rel st) (maxdet st) /\ maxdet st <= tbr st.
 Proof. exact boundary_justified_reach. Qed.
@@ -33,7 +39,8 @@ Print Assumptions boundary_justified.
 (** A live block newer than every detected block is never hidden: its
     locations stay valid (BlockReferenceToBlockIndex resolves block index i). *)
 Theorem newer_blocks_never_hidden : forall c es i,
-  let st := run_evs c init es in
+  wf0 c ->
+  let st := run_evs c (init_of c) es in
   is_raise (pcs st) = false -> 0 <= i -> maxdet st <= rel st + i -> hidden st i = false.
 Proof. exact newer_never_hidden_reach. Qed.
 Print Assumptions newer_blocks_never_hidden.
@@ -41,7 +48,8 @@ Print Assumptions newer_blocks_never_hidden.
 (** A detected block and all older ones become invisible with the callback and
     stay invisible whatever happens afterwards. *)
 Theorem detected_and_older_hidden_at_once : forall c es r rd es' i,
-  let st := run_evs c init es in
+  wf0 c ->
+  let st := run_evs c (init_of c) es in
   nth_error (rdrs st) r = Some rd -> r_open rd = true -> r_bad rd = true ->
   let st' := run_evs c (detect st r) es' in
   r_tgt rd <= tbr st' /\ (rel st' + i < r_tgt rd -> hidden st' i = true).
@@ -52,7 +60,8 @@ Print Assumptions detected_and_older_hidden_at_once.
     Put() is entered has been popped when that Put() hands out its writer,
     whichever callbacks run in between. *)
 Theorem quarantined_released_by_next_put : forall c es sz es' idx,
-  let st := run_evs c init es in
+  wf0 c ->
+  let st := run_evs c (init_of c) es in
   pcs st = Idle ->
   let st' := run_evs c (start st sz) es' in
   pcs st' = PDone 0 idx -> tbr st <= rel st'.
@@ -65,7 +74,7 @@ Print Assumptions quarantined_released_by_next_put.
     that is above its configured capacity old+current+new. *)
 Theorem release_justified : forall c es,
   wfq c ->
-  let st := run_evs c init es in
+  let st := run_evs c (init_of c) es in
   rel (put_step c st) <> rel st ->
   rel (put_step c st) = rel st + 1
   /\ (rel st < maxdet st \/ (exists sz, pcs st = PPop sz) /\ capq c + 1 <= live st).
@@ -74,14 +83,59 @@ Print Assumptions release_justified.
 
 (** The catch-up loop never pops an empty block list (no Go panic there). *)
 Theorem catch_up_never_pops_empty_list : forall c es sz snap,
-  let st := run_evs c init es in
+  wf0 c ->
+  let st := run_evs c (init_of c) es in
   pcs st = PCatch sz snap -> rel st < snap -> blocks st <> [].
 Proof. exact catch_up_has_blocks_reach. Qed.
 Print Assumptions catch_up_never_pops_empty_list.
 
+(** Without restored blocks the constructor's state is the empty one. *)
+Theorem no_initial_blocks_is_the_empty_state : forall c,
+  q_init c <= 0 -> wf0 c -> init_of c = init.
+Proof. exact init_of_0. Qed.
+Print Assumptions no_initial_blocks_is_the_empty_state.
+
+(** FUEL.  The final allocation loop of findBlockWithSpace ([alloc_loop], fuel
+    new + 2) never runs out of fuel, and no Put() ends with the out-of-fuel
+    code -1: every configuration with 0 <= old, 0 <= current, 1 <= new, any
+    initialBlocksCount, every interleaving (Store/QFuel.v). *)
+Theorem final_allocation_loop_fuel_suffices : forall c es,
+  wfq c ->
+  let st := run_evs c (init_of c) es in
+  (forall sz, pcs st = PAlloc sz -> snd (alloc_loop (alloc_fuel st) c st sz) <> -1)
+  /\ (forall code idx, pcs st = PDone code idx -> code <> -1).
+Proof. exact alloc_fuel_suffices_reach. Qed.
+Print Assumptions final_allocation_loop_fuel_suffices.
+
+(** The fuel [put_fuel] the run function gives a whole Put() (catch-up loop,
+    grow loop, rotation loop, final loop, callbacks at every block-list call)
+    suffices: no observation of the model carries the code -1, for every
+    schedule whose upload sizes fit a fresh block or exceed the block size
+    ([sizes_ok]: sz <= blockSize - q_pb or blockSize < sz; the harness generates
+    and accepts only such sizes).  The monitor's exemption for code -1 is
+    therefore never used on the model. *)
+Theorem put_fuel_suffices : forall inp,
+  wfq (inp_cfg inp) -> sizes_ok (inp_cfg inp) (inp_ops inp) = true ->
+  Forall not_out_of_fuel (run_ops (inp_cfg inp) (init_of (inp_cfg inp)) (inp_ops inp)).
+Proof. intros inp. exact (put_fuel_suffices_all (inp_cfg inp) (inp_ops inp)). Qed.
+Print Assumptions put_fuel_suffices.
+
+(** ... and the hypothesis on sizes is needed: block size 8, probes 2, an upload
+    of 7 bytes fits no fresh block but passes the size filter; the rotation loop
+    of the real code never ends, the model runs out of fuel. *)
+Example ex_size_hypothesis_needed :
+  let inp := L [L [A 8; A 1; A 1; A 1; A 1; A 2]; L [L [A 0; A 7; L []]]] in
+  wfq (inp_cfg inp) /\ sizes_ok (inp_cfg inp) (inp_ops inp) = false
+  /\ match run_ops (inp_cfg inp) (init_of (inp_cfg inp)) (inp_ops inp) with
+     | [BPut code _ _ _] => code = -1
+     | _ => False
+     end.
+Proof. cbv zeta. split; [unfold wfq; cbn; lia|]. split; vm_compute; reflexivity. Qed.
+
 (** The monitor of Run/R08Q.v is silent on the model's own observations, for
-    every configuration with 0 <= old, 0 <= current, 1 <= new and every
-    schedule (callbacks at every block-list call of every Put()). *)
+    every configuration with 0 <= old, 0 <= current, 1 <= new, any
+    initialBlocksCount and every schedule (callbacks at every block-list call
+    of every Put()). *)
 Theorem mon08Q_silent_on_model : forall inp,
   wfq (inp_cfg inp) -> mon08Q inp (run08Q inp) = [].
 Proof. exact mon08Q_silent_on_model_all. Qed.
@@ -129,6 +183,9 @@ Definition ex_inp : sx :=
 
 Example ex_wf : wfq (inp_cfg ex_inp).
 Proof. unfold wfq. cbn. lia. Qed.
+
+Example ex_sizes : sizes_ok (inp_cfg ex_inp) (inp_ops ex_inp) = true.
+Proof. vm_compute. reflexivity. Qed.
 
 Example ex_run :
   run08Q ex_inp =
